@@ -158,6 +158,17 @@ CHECKS = {
             'exists in the sandbox to cross-check it; its limb arithmetic is self-checked by TLC against integer arithmetic.',
             'per-design translation validation: TLC executes the emitted Verilog (VerilogSem.tla) against recorded simulator runs',
             'DESIGN.md section 4, C01'),
+    'C19': ('model_checking',
+            'TLC explores every call history (new generator for a circuit or one of its sub-blocks, whole-hierarchy request, '
+            'single-module request from the block own generator or an ancestor generator, simulation step) over two circuits sharing '
+            'block kinds and wire names, with the cache discipline of rtl_generation modelled (GenHistory.tla, invariant RequestIsPure). '
+            'Histories are replayed on real generators and circuits; each answer is normalised by the syntax front end and must equal the '
+            'answer to the same request on a freshly built, never simulated identical circuit with a fresh generator; outputs after every '
+            'simulation step must equal those of an identical circuit never asked for Verilog (judged by TLC, Trace_Gen); the second '
+            'answer of a generator is also executed against the simulator (Trace_Verilog).',
+            'two circuits; histories up to 5-6 calls; normalisation = declaration order and instance-unique hexadecimal suffixes.',
+            'TLC model checking of generator call histories; replay of histories; TLC validation of recorded answers',
+            'DESIGN.md section 4, C19'),
 }
 
 PENDING = {}
